@@ -416,7 +416,10 @@ func (fc *funcContext) translateExpr(expr ast.Expr) *expression {
 				}
 				return fc.formatExpr("%e / %e", e.X, e.Y)
 			case token.REM:
-				return fc.formatExpr(`(%1s = %2e %% %3e, %1s === %1s ? %1s : $throwRuntimeError("integer divide by zero"))`, fc.newLocalVariable("_r"), e.X, e.Y)
+				// The result is NaN for a zero divisor, and -0 for a negative dividend
+				// that divides evenly: test for the former, then coerce the latter away.
+				r := fc.newLocalVariable("_r")
+				return fc.formatExpr(`(%1s = %2e %% %3e, %1s === %1s ? %4s : $throwRuntimeError("integer divide by zero"))`, r, e.X, e.Y, fc.fixNumber(fc.formatExpr("%s", r), basic))
 			case token.SHL, token.SHR:
 				op := e.Op.String()
 				if e.Op == token.SHR && isUnsigned(basic) {
